@@ -191,7 +191,7 @@ class TocFetcher:
                          self.port, self.nbr_of_items, self._crc)
 
             cache_data = self._toc_cache.fetch(self._crc)
-            if (cache_data):
+            if (cache_data and self._is_cache_for_this_toc(cache_data)):
                 self.toc.toc = cache_data
                 logger.info('TOC for port [%s] found in cache' % self.port)
                 self._toc_fetch_finished()
@@ -230,6 +230,15 @@ class TocFetcher:
             else:  # No more variables in TOC
                 self._toc_cache.insert(self._crc, self.toc.toc)
                 self._toc_fetch_finished()
+
+    def _is_cache_for_this_toc(self, cache_data):
+        """The cache is keyed on the CRC only, make sure that a hit is a TOC of our kind
+        (the log and param TOCs can have the same CRC)"""
+        for group in cache_data.values():
+            for element in group.values():
+                if not isinstance(element, self.element_class):
+                    return False
+        return True
 
     def _request_toc_element(self, index):
         """Request information about a specific item in the TOC"""
